@@ -27,3 +27,4 @@ package jsonrpc2
 //@   ensures [accounting] result0 == written[w.out] - old(written)[w.out]
 //@   ensures [nonneg] result0 >= 0
 //@   at call Write#1 assert [body-follows-header] len(arg0) == len(data)
+//@   at call fmt.Fprintf#1 assert [declares-the-body-length-in-bytes] arg1 == "Content-Length: %v\r\n\r\n" && len(arg2) == 1 && arg2[0] == any(len(data))
